@@ -31,6 +31,7 @@ FUNCTIONS = [
     "pyxel.outputs.utils:to_fits", "pyxel.outputs.utils:to_npy", "pyxel.outputs.utils:to_txt", "pyxel.outputs.utils:to_csv",
     "pyxel.outputs.utils:to_png", "pyxel.outputs.utils:to_jpg",
     "pyxel.outputs.utils:save_to_files",
+    "pyxel.models.photon_collection.load_image:load_image (include_header; witness layer)",
 ]
 STUBS = ["pathlib.Path.exists / mkdir under the scratch prefix -> symbolic file system; datetime.now() -> opaque clock token",
          "write primitives (np.save, np.savetxt, PIL Image.save, astropy writeto, DataFrame.to_csv) -> recorders honouring their documented overwrite contract",
